@@ -32,6 +32,20 @@ def _crash(mode, wq, wt, cuts_q=140, cuts_t=400):
     return f
 
 
+def _sweep(mode, rq, sq, rt, st):
+    def f(tier):
+        if tier == "quick":
+            return [{"engine": "sweep", "shards": sq, "args": {"mode": mode, "runs": rq}}]
+        return [{"engine": "sweep", "shards": st, "args": {"mode": mode, "runs": rt}}]
+    return f
+
+
+def _cache(tier):
+    if tier == "quick":
+        return [{"engine": "cache", "shards": 8, "args": {"sequences": 64, "steps": 700}}]
+    return [{"engine": "cache", "shards": 16, "args": {"sequences": 3200, "steps": 2500}}]
+
+
 def _crash_chain(tier):
     if tier == "quick":
         return [{"engine": "crash", "args": {"mode": "chain", "workloads": 6, "chain": 6, "cuts": 50}}]
@@ -170,11 +184,12 @@ PLAN = {
     "C01": {"level": "exploration", "engines": _model("all"), "min_nontrivial": 500, "assumptions": MODEL_ASSUMPTIONS},
     "C10": {"level": "exploration", "engines": _model("layout", quick_programs=24, thorough_programs=400), "min_nontrivial": 300,
             "assumptions": MODEL_ASSUMPTIONS + ["independent codec M6 (harness/src/indep.rs) is the reader; it shares no code with feoxdb"]},
-    "C11": {"level": "exploration", "engines": _model("ttl"), "min_nontrivial": 300, "assumptions": MODEL_ASSUMPTIONS},
+    "C11": {"level": "exploration", "engines": _both(_model("ttl"), _sweep("sweeper", 6, 3, 60, 8), _sweep("ttlcrash", 8, 8, 160, 16)), "min_nontrivial": 300,
+            "assumptions": MODEL_ASSUMPTIONS + CONC_ASSUMPTIONS[:2] + ["sweeper runs use the process-wide virtual clock offset (hook H6) for jumps; bounds around calls are taken from that clock before and after each call"]},
     "C12": {"level": "exploration", "engines": _model("ts"), "min_nontrivial": 300, "assumptions": MODEL_ASSUMPTIONS},
     "C13": {"level": "exploration", "engines": _both(_model("mem"), MEMLIMIT), "min_nontrivial": 300, "assumptions": MODEL_ASSUMPTIONS + CONC_ASSUMPTIONS},
     "C14": {"level": "exploration", "engines": _both(_model("range"), SCAN), "min_nontrivial": 300, "assumptions": MODEL_ASSUMPTIONS + CONC_ASSUMPTIONS},
-    "C16": {"level": "exploration", "engines": _both(_model("cache", configs="cachepair", quick_programs=60, thorough_programs=1500), _conc("reuse", 4, 8, {"runs": 3}, {"runs": 60})), "min_nontrivial": 200, "assumptions": MODEL_ASSUMPTIONS + CONC_ASSUMPTIONS},
+    "C16": {"level": "exploration", "engines": _both(_model("cache", configs="cachepair", quick_programs=60, thorough_programs=1500), _conc("reuse", 4, 8, {"runs": 3}, {"runs": 60}), _cache), "min_nontrivial": 200, "assumptions": MODEL_ASSUMPTIONS + CONC_ASSUMPTIONS},
     "C06": {
         "level": "exploration",
         "engines": _fsm,
